@@ -25,6 +25,10 @@ pub struct SeqParams {
     pub vacuum_end: bool,
     /// configuration used for reopen (None = same as cfg)
     pub reopen_cfg: Option<Cfg>,
+    /// C12, caches below the documented range: an explicit out-of-memory answer to an autocommit statement or
+    /// maintenance call is accepted, provided the database still holds exactly what it held before it
+    #[serde(default)]
+    pub oom_tolerant: bool,
 }
 
 pub fn enabled(m: &Model, op: &Op) -> bool {
@@ -34,7 +38,10 @@ pub fn enabled(m: &Model, op: &Op) -> bool {
             *n == smallest_free
         }
         Op::In(n, _) | Op::Commit(n) | Op::Rollback(n) | Op::DropSession(n) => m.sessions.contains_key(n),
-        Op::Vacuum | Op::Reopen | Op::Flush | Op::Analyze => m.sessions.is_empty(),
+        // VACUUM is documented to abort open transactions and reopen ends them; a checkpoint (flush) with
+        // sessions open is ordinary use and matters for C02 (uncommitted data reaches the data file)
+        Op::Vacuum | Op::Reopen | Op::Analyze => m.sessions.is_empty(),
+        Op::Flush => true,
         Op::Audit => true,
         Op::Auto(_) | Op::Batch(_) => true,
     }
@@ -79,6 +86,7 @@ pub fn err_class_matches(expected: ErrClass, got: ErrClass) -> bool {
 
 pub struct Exec {
     pub db: Db,
+    pub oom_tolerant: bool,
     pub model: Model,
     pub log: Vec<String>,
     pub digest: Vec<String>,
@@ -94,7 +102,7 @@ impl Exec {
     pub fn new(p: &SeqParams) -> Result<Exec, String> {
         let hz: BTreeSet<String> = p.hazards.iter().cloned().collect();
         let db = Db::create("seq", p.cfg)?;
-        Ok(Exec { db, model: Model::new(&hz), log: vec![], digest: vec![], counters: BTreeMap::new() })
+        Ok(Exec { db, oom_tolerant: p.oom_tolerant, model: Model::new(&hz), log: vec![], digest: vec![], counters: BTreeMap::new() })
     }
 
     fn count(&mut self, k: &str) {
@@ -102,7 +110,29 @@ impl Exec {
     }
 
     /// Execute one operation on engine and model. Returns divergence description if any.
+    /// After an accepted out-of-memory answer: the model is put back to `before` and every table the engine can
+    /// still read must hold exactly the model's rows (a read that itself runs out of memory proves nothing).
+    fn after_oom(&mut self, before: Model, what: &str) -> Option<String> {
+        self.model = before;
+        self.count("permitted_out_of_memory_answers");
+        let mut m = self.model.clone();
+        let names = m.committed_tables();
+        let exps = m.apply(&Op::Audit);
+        for (name, e) in names.iter().zip(exps.iter()) {
+            let out = self.db.exec(&format!("SELECT * FROM {name}"));
+            if out.err_class() == Some(ErrClass::OutOfCache) {
+                self.count("reads_after_out_of_memory_that_ran_out_of_memory_too");
+                continue;
+            }
+            if !conforms(e, &out) {
+                return Some(format!("{what} answered out of memory, and afterwards {name} no longer holds what it held before the statement: expected {}, got {}", e.show(), out.show()));
+            }
+        }
+        None
+    }
+
     pub fn step(&mut self, op: &Op, reopen_cfg: Cfg) -> StepVerdict {
+        let before = if self.oom_tolerant && self.model.sessions.is_empty() { Some(self.model.clone()) } else { None };
         let exps = self.model.apply(op);
         let mut div: Option<String> = None;
         let mut note = |this: &mut Exec, what: String, exp: &Exp, got: String, ok: bool| {
@@ -118,7 +148,11 @@ impl Exec {
                 }
                 note(self, op.show(), &exps[0], out.show(), ok);
                 if !ok {
-                    div = Some(format!("{}: expected {}, got {}", op.show(), exps[0].show(), out.show()));
+                    if let (Some(b), Some(ErrClass::OutOfCache)) = (before.clone(), out.err_class()) {
+                        div = self.after_oom(b, &op.show());
+                    } else {
+                        div = Some(format!("{}: expected {}, got {}", op.show(), exps[0].show(), out.show()));
+                    }
                 }
             }
             Op::In(n, s) => {
@@ -202,7 +236,10 @@ impl Exec {
                 let ok = r.is_ok();
                 note(self, op.show(), &Exp::Unit, format!("{r:?}"), ok);
                 if !ok {
-                    div = Some(format!("vacuum: {:?}", r));
+                    match (before.clone(), &r) {
+                        (Some(b), Err((ErrClass::OutOfCache, _))) => div = self.after_oom(b, "vacuum"),
+                        _ => div = Some(format!("vacuum: {:?}", r)),
+                    }
                 }
             }
             Op::Flush => {
